@@ -445,7 +445,7 @@ func skeleton() *Node {
 func (g *Gen) GenBundle() *Bundle {
 	b := &Bundle{Docs: map[string]*Node{}, Files: map[string]string{}}
 	b.Files["root"] = "api/root.json"
-	auxLoc := []string{"api/sub/a.json", "api/sub/deep/b.json", "common/c.json"}
+	auxLoc := []string{"api/sub/a.json", "api/sub/deep/b.json", "common/root.json"} // the third one is a namesake of the root document
 	naux := 0
 	if g.o.NAux > 0 {
 		naux = g.r.Intn(g.o.NAux + 1)
@@ -942,7 +942,7 @@ func (g *Gen) MutateWPlus(b *Bundle) WPlusInfo {
 					info.Kinds = append(info.Kinds, "dangling-remote-definition")
 				}
 			} else {
-				b.Files["ghost"] = "api/ghost.json" // never written
+				b.Files["ghost"] = []string{"api/ghost.json", "api/v2/root.json"}[g.r.Intn(2)] // never written (the second one is a namesake of the root)
 				root.Get(h).At["$ref"] = []string{"ghost", "definitions", "x"}
 				info.Unresolvable = true
 				info.Kinds = append(info.Kinds, "missing-file")
